@@ -34,84 +34,21 @@ def check(ctx):
     ctx.rule("R8", "no transmission after the answer: in the engine pass that dispatches the answer the handler's loop() cannot retry - because handled() restarts the timeout on every path, or loop() skips flagged handlers, or the clean-up precedes loop()")
     ctx.rule("R7", "handshake chain: start_connect -> _on_version_received -> _on_channel_received -> _on_config_received -> retry_request -> _final_connect exists and every step both registers and queues its request handler")
 
-    # ---- R1 FIFO -------------------------------------------------------------------------
-    prod, cons = [], []
+    # ---- R1-R3 (+ part of R4) by interpretation: vlib/enginemodel.py -------------------------------------------
+    from ..enginemodel import engine_obligations
+    engine_obligations(ctx, repo, "R1", "R2", "R3", "R4")
+    # lock discipline of the two queues (lexical): every mutation of the send queue / handler list inside `with self._lock`
+    n_mut = 0
     for fi in repo.cls(SOCK).methods.values():
-        for n in walk_no_nested(fi.node):
-            if isinstance(n, ast.Call) and receiver(n) == "self._send_handlers":
-                nm = call_name(n)
-                if nm in ("append", "insert", "extend", "appendleft"):
-                    prod.append((fi, n, nm))
-                elif nm in ("pop", "popleft", "remove", "clear"):
-                    cons.append((fi, n, nm))
-            if isinstance(n, ast.Assign) and any(ast.unparse(t) == "self._send_handlers" for t in n.targets) and fi.name != "__init__":
-                cons.append((fi, n, "rebind"))
-    ctx.ob("R1", "send-queue::one-producer", len(prod) == 1 and prod[0][2] == "append", f"send queue producers: {[(f.qual, k) for f, _, k in prod]} (expected a single tail append)", repo.cls(SOCK).loc)
-    ctx.ob("R1", "send-queue::one-consumer", len(cons) == 1 and cons[0][2] == "pop", f"send queue consumers: {[(f.qual, k) for f, _, k in cons]} (expected a single pop)", repo.cls(SOCK).loc)
-    for fi, n, k in prod:
-        ctx.ob("R1", f"{fi.qual}::append-under-lock", in_lock(fi, n), f"{fi.qual}: queue append outside `with self._lock`", loc(fi, n))
-        gq = cfg_of(fi)
-        an = [x for x in gq.stmt_nodes() if n in list(x.walk())]
-        uncond = bool(an) and gq.pdom(an[0], gq.entry) and not gq.guards(an[0])
-        ctx.ob("R1", f"{fi.qual}::every-request-is-queued", uncond,
-               f"{fi.qual}: the append is conditional ({[(t.text(), l) for t, l in gq.guards(an[0])] if an else '?'}): some queue_send calls transmit nothing "
-               f"(a retry would spend its budget without a retransmission; sends are dropped or re-ordered)", loc(fi, n))
-        ok = len(n.args) == 1 and isinstance(n.args[0], ast.Tuple) and len(n.args[0].elts) == 2
-        ctx.ob("R1", f"{fi.qual}::queues-handler-and-destination", ok, f"{fi.qual}: queue element is not (handler, destination)", loc(fi, n))
-    for fi, n, k in cons:
-        if k != "pop":
+        if fi.name == "__init__":
             continue
-        ctx.ob("R1", f"{fi.qual}::pop-under-lock", in_lock(fi, n), f"{fi.qual}: queue pop outside `with self._lock`", loc(fi, n))
-        idx = repo.try_fold(n.args[0]) if n.args else None
-        ctx.ob("R1", f"{fi.qual}::pops-the-head", idx == 0, f"{fi.qual}: removes index {idx!r} (`{ast.unparse(n)}`): sends would not leave in FIFO order", loc(fi, n),
-               sample={"rule": "R1", "consumer": ast.unparse(n), "producer": ast.unparse(prod[0][1]) if prod else None})
-
-    # ---- R2 throttle ---------------------------------------------------------------------------
+        for n in walk_no_nested(fi.node):
+            if isinstance(n, ast.Call) and receiver(n) in ("self._send_handlers", "self._receive_handlers") and call_name(n) in ("append", "insert", "extend", "pop", "remove", "clear"):
+                n_mut += 1
+                ctx.ob("R1", f"{fi.qual}::{receiver(n).split('.')[-1]}.{call_name(n)}::under-lock", in_lock(fi, n), f"{fi.qual}: `{ast.unparse(n)}` outside `with self._lock`", loc(fi, n))
+    ctx.floor("R1", "queue mutations under the lock", n_mut, 3)
     ps = repo.own_method(SOCK, "_process_send_requests")
-    g = cfg_of(ps)
-    sends = calls_named(g, "sendto")
-    ctx.ob("R2", f"{ps.qual}::one-send-site", len(sends) == 1 and g.loop_of(sends[0][0]) is None and not loop_heads(g), f"{ps.qual}: not exactly one sendto outside any loop", ps.loc)
-    for S, sc in sends:
-        facts = g.guard_atoms(S)
-        thr = [t for t, p in facts if (not p) and "_last_send_time" in t and "<" in t and "_SENDING_THROTTLE_RATE_PER_SECOND" in t and "monotonic" in t]
-        ctx.ob("R2", f"{ps.qual}::throttle-dominates-send", bool(thr), f"{ps.qual}: the send is not guarded by the throttle test (guards {sorted(facts)})", loc(ps, S.ast),
-               sample={"rule": "R2", "guards": sorted(map(str, facts))})
-        ups = [n for n in g.stmt_nodes() if isinstance(n.ast, ast.Assign) and ast.unparse(n.ast.targets[0]) == "self._last_send_time" and "monotonic" in n.text()]
-        ok = len(ups) == 1 and g.dom(S, ups[0]) and not [m for m in g.between(S, ups[0])]
-        ctx.ob("R2", f"{ps.qual}::stamp-after-send", ok, f"{ps.qual}: last-send time is not stamped right after the successful sendto", loc(ps, S.ast))
-        a = [ast.unparse(x) for x in sc.args]
-        ctx.ob("R2", f"{ps.qual}::sends-handler-bytes", a[:1] == ["send_bytes"] and receiver(sc) == "self._socket", f"{ps.qual}: sendto arguments {a}", loc(ps, S.ast))
-    rate = repo.try_fold(repo.cls(SOCK).consts.get("_SENDING_THROTTLE_RATE_PER_SECOND"))
-    ctx.ob("R2", "throttle-rate::positive", isinstance(rate, (int, float)) and rate > 0, f"throttle rate is {rate!r}", repo.cls(SOCK).loc)
-
-    # ---- R3 first match ---------------------------------------------------------------------------
     dr = repo.own_method(SOCK, "dispatch_recevied_data")
-    gd = cfg_of(dr)
-    loops = [n for n in gd.stmt_nodes() if n.kind == "for"]
-    ok = len(loops) == 1 and ast.unparse(loops[0].ast.iter) == "self._receive_handlers"
-    ctx.ob("R3", f"{dr.qual}::iterates-registration-order", ok, f"{dr.qual}: selection does not iterate self._receive_handlers in order", dr.loc)
-    if ok:
-        lp = loops[0]
-        tgt = ast.unparse(lp.ast.target)
-        asg = [n for n in gd.stmt_nodes() if isinstance(n.ast, ast.Assign) and ast.unparse(n.ast.value) == tgt]
-        ok2 = len(asg) == 1
-        if ok2:
-            A = asg[0]
-            facts = gd.guard_atoms(A, entry=lp, cut_back=True)
-            ok2 = any(p and t.startswith(f"{tgt}.can_handle(") for t, p in facts)
-            nxt = [m for m, l in gd.succ[A] if l != "exc"]
-            ok2 = ok2 and len(nxt) == 1 and isinstance(nxt[0].ast, ast.Break)
-            sel = ast.unparse(A.ast.targets[0])
-        ctx.ob("R3", f"{dr.qual}::first-match-then-break", ok2, f"{dr.qual}: the first handler whose can_handle accepts is not selected with an immediate break (a later handler could win)", dr.loc,
-               sample={"rule": "R3", "loop": lp.text()})
-        ctx.ob("R3", f"{dr.qual}::selection-under-lock", in_lock(dr, lp.ast), f"{dr.qual}: handler list scanned outside the lock", dr.loc)
-        if ok2:
-            hs = [(n, c) for n, c in calls_named(gd, "handle") if receiver(c) == sel]
-            hd = [(n, c) for n, c in calls_named(gd, "handled") if receiver(c) == sel]
-            ok3 = len(hs) == 1 and len(hd) == 1 and gd.dom(hs[0][0], hd[0][0]) and (sel, True) in gd.guard_atoms(hs[0][0])
-            ctx.ob("R3", f"{dr.qual}::handle-then-handled-on-selected", ok3, f"{dr.qual}: handle/handled are not called once, in order, on the selected handler only", dr.loc)
-            others = [c for n, c in calls_named(gd, "handle") if receiver(c) != sel]
-            ctx.ob("R3", f"{dr.qual}::only-selected-handles", not others, f"{dr.qual}: other handlers also get the datagram", dr.loc)
 
     # ---- R4 exception isolation -----------------------------------------------------------------------
     def isolated(fi, call):
